@@ -14,10 +14,12 @@ opaque `Tok.value`.  The step text ↔ tokens (`Lex.tokenize`, `print`) is tied 
 ledger by the correspondence check only (tools/props/c15.py), which also
 re-checks `tokenize (print e) = printToks e` on every generated case.
 
-Four places where the code does NOT have the property are kept visible here:
-the full statement as a `def … : Prop`, its negation proved on a witness that
-the check replays on the binary, and the `_partial` theorem with its guard:
-* `C15.PrintParseValue` – op_t::print parenthesises the O_COLON node;
+Places where the code does NOT (or did not) have the property are kept visible
+here: the full statement as a `def … : Prop`, its negation proved on a witness
+that the check replays on the binary, and the `_partial` theorem with its guard:
+* `C15.PrintParseValue` – op_t::print parenthesised the O_COLON node (repaired in
+                          /repo; the statement is now proved in full under the
+                          extracted flag, and `print_colon_flag` pins the repair);
 * `C15.CompileSound`    – constant folding evaluates what short circuit skips,
                           folds O_COLON, folds argument lists;
 * `C15.ParamScope`      – a local definition mentioning a parameter is captured
@@ -28,6 +30,7 @@ import LedgerModel.Lemmas.ExprEval
 import LedgerModel.Lemmas.ExprScope
 import LedgerModel.Lemmas.ExprParam
 import LedgerModel.Gen.ExprFns
+import LedgerModel.Gen.ExprFlags
 import LedgerModel.Model.ExprFnsPinned
 
 namespace Ledger
@@ -103,28 +106,49 @@ theorem C15.parse_fully_parenthesised (e : Expr) (he : e.isOpTree = true) : pars
 
 /-! ## Printing -/
 
-/-- FULL STATEMENT (false on the pinned tree): what op_t::print emits for an
-    operator tree parses back to a tree with the same value. -/
+/-- FULL STATEMENT: what op_t::print emits for an operator tree parses back to a
+    tree with the same value.  It holds exactly when op_t::print does not wrap the
+    O_COLON node of a conditional in parentheses of its own
+    (`Gen.printParenthesisesColon`, read off the two tests op.cc 669-670 / 860-861
+    on every run): see `print_parse_value`, `print_parse_value_fails`,
+    `print_colon_flag`. -/
 def C15.PrintParseValue : Prop :=
   ∀ (env : PrecEnv) (e : Expr), e.isOpTree = true →
     ∃ e', parseToks (printToks e) = .ok e' ∧ ∀ f G, evalWith env true f G e' = evalWith env true f G e
+
+/-- The working tree prints a conditional as `(a ? b : c)`.  (It printed
+    `(a ? (b : c))` until the repair of finding `C15:op.cc:print:O_COLON`; a
+    regression of that repair breaks this obligation.) -/
+theorem C15.print_colon_flag : Gen.printParenthesisesColon = false := by decide
+
+/-- With the O_COLON node unparenthesised, the printed token sequence of EVERY
+    operator tree – conditionals included, nested anywhere – parses back to the
+    very same tree (hence the same value, in every scope). -/
+theorem C15.print_parse_value (h : Gen.printParenthesisesColon = false) : C15.PrintParseValue := by
+  intro env e he
+  have hp : parseToks (printToks e) = .ok e := by
+    unfold printToks
+    rw [h, ← printToksAux_eq_render false e he (fun h' => by cases h') 0]
+    exact parse_render true e he
+  exact ⟨e, hp, fun _ _ => rfl⟩
 
 /-- `1 ? 2 : 3` -/
 def C15.witnessCond : Expr :=
   .query (.val (.amt ⟨1, 0, false, ""⟩)) (.val (.amt ⟨2, 0, false, ""⟩)) (.val (.amt ⟨3, 0, false, ""⟩))
 
-/-- op_t::print writes `(1 ? (2 : 3))` (op.cc 669-670 parenthesises the O_COLON
-    node as well); the parser rejects the `:`.  Replayed on the binary by the check
-    (fingerprint `C15:op.cc:print:O_COLON`). -/
-theorem C15.print_parse_value_fails : ¬ C15.PrintParseValue := by
-  intro h
-  obtain ⟨e', h1, _⟩ := h (fun _ => 0) C15.witnessCond (by decide)
-  have : parseToks (printToks C15.witnessCond) = .error errParse := by decide
-  rw [this] at h1
+/-- With the O_COLON node parenthesised, op_t::print writes `(1 ? (2 : 3))` and the
+    parser rejects the `:` – the full statement is false.  (The state of the pinned
+    tree; replayed on the binary by the check, fingerprint `C15:op.cc:print:O_COLON`.) -/
+theorem C15.print_parse_value_fails (h : Gen.printParenthesisesColon = true) : ¬ C15.PrintParseValue := by
+  intro hfull
+  obtain ⟨e', h1, _⟩ := hfull (fun _ => 0) C15.witnessCond (by decide)
+  have : parseToks (printToksAux true .none C15.witnessCond) = .error errParse := by decide
+  unfold printToks at h1
+  rw [h, this] at h1
   cases h1
 
-/-- Guard: the tree has no conditional.  Then the printed token sequence parses
-    back to the very same tree (hence the same value, in every scope). -/
+/-- Whatever op_t::print does with O_COLON: a tree without a conditional prints to
+    a token sequence that parses back to the very same tree. -/
 theorem C15.print_parse_value_partial (e : Expr) (he : e.isOpTree = true) (hq : e.noQuery = true) :
     parseToks (printToks e) = .ok e ∧
     ∀ (env : PrecEnv) e', parseToks (printToks e) = .ok e' → ∀ f G, evalWith env true f G e' = evalWith env true f G e := by
@@ -350,6 +374,12 @@ example :
       [.value (.int 1), .minus, .lparen, .value (.int 2), .minus, .value (.int 3), .rparen] ∧
     renderMinimal (.bin .sub (.bin .sub (.val (.int 1)) (.val (.int 2))) (.val (.int 3))) =
       [.value (.int 1), .minus, .value (.int 2), .minus, .value (.int 3)] := by
+  decide
+
+/-- `1 ? 2 : 3` prints as `( 1 ? 2 : 3 )` and parses back -/
+example : printToks C15.witnessCond =
+      [.lparen, .value (.amt ⟨1, 0, false, ""⟩), .query, .value (.amt ⟨2, 0, false, ""⟩), .colon, .value (.amt ⟨3, 0, false, ""⟩), .rparen] ∧
+    parseToks (printToks C15.witnessCond) = .ok C15.witnessCond := by
   decide
 
 /-- short circuit: `false & (1 / 0)` is false, `1 | (1 / 0)` is 1, `(1 / 0) & false` fails -/
